@@ -169,28 +169,93 @@ func runYield(c *Ctx, r *Reporter) {
 	var stopIf *ssa.If
 	var yieldCall *ssa.Call
 	var asserts []ssa.Instruction
+	scan := func(fn *ssa.Function) {
+		for _, b := range fn.Blocks {
+			for _, ins := range b.Instrs {
+				switch x := ins.(type) {
+				case *ssa.If:
+					if u, ok := x.Cond.(*ssa.UnOp); ok {
+						if fa, ok := u.X.(*ssa.FieldAddr); ok {
+							if _, name := fieldAddrInfo(fa); name == "Stopped" && stopIf == nil {
+								stopIf = x
+							}
+						}
+					}
+				case *ssa.Call:
+					if x.Call.StaticCallee() == ei.yield && ei.yield != nil && yieldCall == nil {
+						yieldCall = x
+					}
+				}
+			}
+		}
+	}
+	scan(ei.eval)
 	for _, b := range ei.eval.Blocks {
 		for _, ins := range b.Instrs {
-			switch x := ins.(type) {
-			case *ssa.If:
-				if u, ok := x.Cond.(*ssa.UnOp); ok {
-					if fa, ok := u.X.(*ssa.FieldAddr); ok {
-						if _, name := fieldAddrInfo(fa); name == "Stopped" && stopIf == nil {
-							stopIf = x
+			if x, ok := ins.(*ssa.TypeAssert); ok {
+				asserts = append(asserts, x)
+			}
+		}
+	}
+	// eval may be split into a checkpoint (stop test and yield) and the dispatch proper: the calls of eval to
+	// functions of the evaluator that dispatch (contain the node type switch) are then the dispatch points, and a
+	// helper that eval calls before them may hold the stop test and the yield
+	var checkpoint *ssa.Function
+	var checkpointCall *ssa.Call
+	if len(asserts) == 0 || stopIf == nil || yieldCall == nil {
+		for _, b := range ei.eval.Blocks {
+			for _, ins := range b.Instrs {
+				call, ok := ins.(*ssa.Call)
+				if !ok || call.Call.StaticCallee() == nil || call.Call.StaticCallee().Pkg != ei.eval.Pkg || len(call.Call.StaticCallee().Blocks) == 0 {
+					continue
+				}
+				h := call.Call.StaticCallee()
+				nAsserts := 0
+				for _, hb := range h.Blocks {
+					for _, hi := range hb.Instrs {
+						if _, ok := hi.(*ssa.TypeAssert); ok {
+							nAsserts++
 						}
 					}
 				}
-			case *ssa.Call:
-				if x.Call.StaticCallee() == ei.yield && ei.yield != nil && yieldCall == nil {
-					yieldCall = x
+				if nAsserts >= 10 && len(asserts) == 0 {
+					asserts = append(asserts, call)
+					continue
 				}
-			case *ssa.TypeAssert:
-				asserts = append(asserts, x)
+				if (stopIf == nil || yieldCall == nil) && checkpoint == nil && h != ei.yield && nAsserts == 0 {
+					s0, y0 := stopIf, yieldCall
+					scan(h)
+					if stopIf != s0 || yieldCall != y0 {
+						checkpoint, checkpointCall = h, call
+					}
+				}
 			}
 		}
 	}
 	cEval := "pkg/evaluator.(*Evaluator).eval"
 	pos := p.Rel(ei.eval.Pos())
+	// passedCheckpoint: at block b of eval the checkpoint has returned no error
+	passedCheckpoint := func(b *ssa.BasicBlock) bool {
+		if checkpointCall == nil {
+			return false
+		}
+		for _, f := range impliedConds(b) {
+			if bo, ok := f.Cond.(*ssa.BinOp); ok && (bo.Op == token.NEQ || bo.Op == token.EQL) {
+				if k, ok := bo.Y.(*ssa.Const); ok && k.IsNil() && valueReaches(bo.X, checkpointCall, 2) && f.Truth == (bo.Op == token.EQL) {
+					return true
+				}
+			}
+		}
+		return false
+	}
+	isErrStopped := func(v ssa.Value) bool {
+		if u, ok := v.(*ssa.UnOp); ok {
+			if g, ok := u.X.(*ssa.Global); ok && g.Name() == "ErrStopped" {
+				return true
+			}
+		}
+		return false
+	}
 	if stopIf == nil {
 		r.Viol(cEval+"#stop-test", pos, "eval does not test e.Stopped: a raised stop flag is never honoured")
 	} else {
@@ -198,18 +263,27 @@ func runYield(c *Ctx, r *Reporter) {
 		t := stopIf.Block().Succs[0]
 		retOK := false
 		if len(t.Instrs) > 0 {
-			if ret, ok := t.Instrs[len(t.Instrs)-1].(*ssa.Return); ok && len(ret.Results) == 2 {
-				if u, ok := ret.Results[1].(*ssa.UnOp); ok {
-					if g, ok := u.X.(*ssa.Global); ok && g.Name() == "ErrStopped" {
-						retOK = true
-					}
+			if ret, ok := t.Instrs[len(t.Instrs)-1].(*ssa.Return); ok && len(ret.Results) >= 1 && isErrStopped(ret.Results[len(ret.Results)-1]) {
+				retOK = true
+			}
+		}
+		if retOK && stopIf.Parent() == checkpoint {
+			// … and eval hands the checkpoint's error on: where it is non-nil eval returns it
+			retOK = false
+			for _, ret := range returnsOf(ei.eval) {
+				if len(ret.Results) == 2 && valueReaches(ret.Results[1], checkpointCall, 3) {
+					retOK = true
 				}
 			}
 		}
 		r.Check(retOK, cEval+"#stop-test", p.Rel(instrPos(stopIf)), "a raised stop flag ends the step with ErrStopped", "the e.Stopped branch of eval does not return ErrStopped")
 		domAll := len(asserts) > 0
 		for _, a := range asserts {
-			if !stopIf.Block().Dominates(a.Block()) {
+			if stopIf.Parent() == checkpoint {
+				if !passedCheckpoint(a.Block()) {
+					domAll = false
+				}
+			} else if !stopIf.Block().Dominates(a.Block()) {
 				domAll = false
 			}
 		}
@@ -220,7 +294,17 @@ func runYield(c *Ctx, r *Reporter) {
 	} else {
 		domAll := len(asserts) > 0
 		for _, a := range asserts {
-			if !instrDominates(yieldCall, a) {
+			if yieldCall.Parent() == checkpoint {
+				// the checkpoint yields on every path on which it returns no error
+				if !passedCheckpoint(a.Block()) {
+					domAll = false
+				}
+				for _, ret := range returnsOf(checkpoint) {
+					if !(yieldCall.Block() == ret.Block() || yieldCall.Block().Dominates(ret.Block())) && !(len(ret.Results) == 1 && isErrStopped(ret.Results[0])) {
+						domAll = false
+					}
+				}
+			} else if !instrDominates(yieldCall, a) {
 				domAll = false
 			}
 		}
@@ -1008,7 +1092,14 @@ func runSignal(c *Ctx, r *Reporter) {
 	// loop evaluators, by role: the functions eval dispatches *parser.WhileStmt and *parser.ForStmt to
 	loopFns := map[*ssa.Function]string{}
 	if evalDecl := FindFunc(pkg, "(*Evaluator).eval"); evalDecl != nil {
-		for _, ts := range typeSwitches(pkg.TypesInfo, evalDecl.Decl.Body, func(ast.Expr) bool { return true }) {
+		_, nodeIface := parserNodeTypes(p)
+		var tss []*ast.TypeSwitchStmt
+		if nodeIface != nil {
+			if _, ts := nodeDispatcher(pkg, evalDecl, nodeIface); ts != nil {
+				tss = append(tss, ts)
+			}
+		}
+		for _, ts := range tss {
 			cases, _ := typeSwitchCases(pkg.TypesInfo, ts)
 			for tn, cc := range cases {
 				if tn.Name() != "WhileStmt" && tn.Name() != "ForStmt" {
